@@ -135,3 +135,19 @@ def close_all():
 def install():
     import yowsup.axolotl.store.sqlite.liteaxolotlstore as LS
     LS.sqlite3 = SqliteShim()
+
+
+def close_prefix(prefix):
+    """Close (as process death) the connections whose database lives under `prefix`."""
+    for c in list(OPEN):
+        if str(c._path).startswith(prefix):
+            object.__setattr__(c, "_dead", True)
+            try:
+                c._real.rollback()
+            except Exception:
+                pass
+            try:
+                c._real.close()
+            except Exception:
+                pass
+            OPEN.remove(c)
